@@ -311,10 +311,11 @@ class World:
     def close(self, s):
         return self.run(s, self.g['CloseCommand'](self.tag()))
 
-    def append(self, s, name='INBOX', flags=(), n=1, literal=b'x'):
+    def append(self, s, name='INBOX', flags=(), n=1, literal=b'x', when=None):
         g = self.g
-        msgs = [g['AppendMessage'](literal, g['datetime'](2020, 1, 1, tzinfo=g['timezone'].utc),
-                                   frozenset(flags)) for _ in range(n)]
+        if when is None:
+            when = g['datetime'](2020, 1, 1, tzinfo=g['timezone'].utc)
+        msgs = [g['AppendMessage'](literal, when, frozenset(flags)) for _ in range(n)]
         return self.run(s, g['AppendCommand'](self.tag(), g['Mailbox'](name), msgs))
 
     def store(self, s, elems, flags, mode, uid=False, silent=False):
